@@ -199,6 +199,14 @@ func (c *AtlasClient) downloadClusterLogsForHost(ctx context.Context, publicKey,
 		return "", fmt.Errorf("failed to create temp file: %w", err)
 	}
 	defer tmpFile.Close()
+	// a panic raised while the body is copied (the HTTP stack parses what the server sent)
+	// must not leave the partial, unredacted file behind: it is not in the caller's list yet
+	defer func() {
+		if r := recover(); r != nil {
+			_ = os.Remove(tmpFile.Name())
+			panic(r)
+		}
+	}()
 
 	_, err = io.Copy(tmpFile, resp.Body)
 	if err != nil {
